@@ -84,7 +84,9 @@ def _env(extra=None, cgo_shim=False):
 def ext_test_build(ctx, pkg, tags="verif", timeout=1500):
     """go test -c for /verif/harness/ext/<pkg>; returns path of the test binary."""
     ext = ext_dir(ctx)
-    out = os.path.join(ctx.subdir("gobuild"), pkg.replace("/", "_") + ".test")
+    # the path must look like a `go test` binary (.../go-build.../x.test): osutil.IsTestBinary keys the
+    # fsync bypass and the Mock* guards (MustBeTestBinary) on it
+    out = os.path.join(ctx.subdir("go-build"), pkg.replace("/", "_") + ".test")
     cmd = ["go", "test", "-c", "-vet=off", "-o", out]
     if tags:
         cmd += ["-tags", tags]
@@ -122,7 +124,7 @@ def overlay_test_build(ctx, repo_pkg, files, tags="verif", cgo_shim=False, timeo
         if os.path.exists(dst):
             raise InfraError("overlay would replace existing file %s" % dst)
         repl[dst] = os.path.abspath(src)
-    d = ctx.subdir("overlay")
+    d = ctx.subdir("go-build-overlay")   # see ext_test_build about the directory name
     ov = os.path.join(d, "overlay.json")
     with open(ov, "w") as f:
         json.dump({"Replace": repl}, f)
